@@ -36,6 +36,10 @@ func runEarly(c EarlyCase, r *pbt.R) {
 			sEP = scen.EP{PSK: "early-psk-000001", PSKHint: "h", Suites: []uint16{0x00a8}}
 		case "v12-cid":
 			cEP.CID, sEP.CID = 4, 4
+		case "v12-mtu70":
+			// the final flight leaves as two datagrams, [ChangeCipherSpec] and [Finished]: only the second is held,
+			// so the receiver can already open the early records when they arrive
+			cEP.MTU, sEP.MTU = 70, 70
 		case "v13":
 			cEP.MinVer, cEP.MaxVer, sEP.MinVer, sEP.MaxVer = 13, 13, 13, 13
 			cEP.Curves, sEP.Curves = []uint16{0x1d}, []uint16{0x1d}
@@ -71,7 +75,10 @@ func runEarly(c EarlyCase, r *pbt.R) {
 			} else {
 				recs, _ := scen.SplitDatagram(ev.Data, 0)
 				for _, rc := range recs {
-					if rc.Kind == "legacy" && rc.Type == scen.CTChangeCipherSpec {
+					if rc.Kind == "legacy" && rc.Type == scen.CTChangeCipherSpec && c.Variant != "v12-mtu70" {
+						isLast = true
+					}
+					if c.Variant == "v12-mtu70" && rc.Kind == "legacy" && rc.Type == scen.CTHandshake && rc.Epoch == 1 {
 						isLast = true
 					}
 				}
@@ -120,7 +127,9 @@ func runEarly(c EarlyCase, r *pbt.R) {
 		<-sdone
 		<-cdone
 		if !rcv.OK() {
-			r.Class("receiver-handshake-failed")
+			r.Failf("C06|handshake-hangs|data-before-final-flight|"+map[bool]string{true: "dtls13", false: "dtls12"}[c.Variant == "v13"],
+				"variant %s: the only disturbance is that the final flight of %s was overtaken by %d application records it wrote once established; %s never completes: %v",
+				c.Variant, snd.Name, c.N, rcv.Name, rcv.Err())
 
 			return
 		}
@@ -177,7 +186,7 @@ func init() {
 	pbt.Register(pbt.Prop[EarlyCase]{
 		Name: "data-overtakes-final-flight", Exhaustive: true, Run: runEarly, Crashy: true,
 		Enum: func(_ string, yield func(EarlyCase) bool) {
-			for _, v := range []string{"v12", "v12-psk", "v12-cid", "v12-resumed", "v13"} {
+			for _, v := range []string{"v12", "v12-psk", "v12-cid", "v12-resumed", "v12-mtu70", "v13"} {
 				for _, n := range []int{1, 2, 5} {
 					if !yield(EarlyCase{v, n}) {
 						return
